@@ -111,6 +111,9 @@ def stepLine (_ : Unit) (toks : List String) : Unit × Option Verdict :=
         ++ (if [i.eq, i.eb, i.ed, i.et].any (fun e => Spec.envInt e == .invalid) then ["envinvalid"] else [])
         ++ (if intEnvOr i.eq 0 < 0 || intEnvOr i.eb 0 < 0 then ["envneg"] else [])
         ++ (if f31 then ["F31"] else [])
+        ++ (if [i.ed, i.et].any (fun e => match Spec.envInt e with | .val n => mulMs n != n * msNs | _ => false)
+            then ["ms-overflow"] else [])
+        ++ (if (newBSP i).d < 1 || (newBSP i).t < 1 then ["nonpositive-duration"] else [])
         ++ (if !f31 && ([i.oq, i.ob].any (fun o => o.any (makeLimit ≤ ·)) || makeLimit ≤ intEnvOr i.eq 0
                          || makeLimit ≤ intEnvOr i.eb 0) then ["huge-not-reaching-make"] else [])
       let nt := i.oq.isSome || i.ob.isSome || i.od.isSome || i.ot.isSome
@@ -139,16 +142,20 @@ def stepLine (_ : Unit) (toks : List String) : Unit × Option Verdict :=
       pure { agree := ms == obsS, spec := if spec then "ok" else "FAIL",
              nontrivial := m != .none || srcs.any (· != .absent),
              branches := ",".intercalate tags, model := ms }
-    | ["blrp", _, oq, oi, ot, ob, obuf, eq, ei, et, eb] => do
+    | ["blrp", _, oq, oi, ot, ob, obuf, eq, ei, et, eb, live] => do
       let x : BlrpIn := { oq := ← optTok oq, oi := ← optTok oi, ot := ← optTok ot, ob := ← optTok ob,
                            obuf := ← optTok obuf, eq := ← envTok eq, ei := ← envTok ei, et := ← envTok et,
                            eb := ← envTok eb }
       let m := newBatchConfig x
-      let ms := s!"{m.q} {m.i} {m.t} {m.b} {m.buf}"
-      let spec := match obs.mapM parseInt with
-        | some [q, i, t, b, buf] =>
-          let o : BlrpOut := { q := q, i := i, t := t, b := b, buf := buf }
-          Spec.blrpOK x o && Spec.blrpSafe o
+      -- `live` = L: the harness really builds (and shuts down) the processor: ticker, queue ring, goroutine
+      let ms := s!"{m.q} {m.i} {m.t} {m.b} {m.buf} {if live == "L" then "ok" else "-"}"
+      let spec := match obs with
+        | [q, i, t, b, buf, lv] =>
+          (match [q, i, t, b, buf].mapM parseInt with
+           | some [q, i, t, b, buf] =>
+             let o : BlrpOut := { q := q, i := i, t := t, b := b, buf := buf }
+             Spec.blrpOK x o && Spec.blrpSafe o && (lv == "ok" || (lv == "-" && live != "L"))
+           | _ => false)
         | _ => false
       let tags := [ srcTag "q" (clearLT1 x.oq).isSome (Spec.envInt x.eq != .absent) false,
                     srcTag "i" (clearLT1 x.oi).isSome (Spec.envInt x.ei != .absent) false,
@@ -159,6 +166,11 @@ def stepLine (_ : Unit) (toks : List String) : Unit × Option Verdict :=
         ++ (if [x.eq, x.ei, x.et, x.eb].any (fun e => (intEnvOr e 1) < 1) then ["env<1"] else [])
         ++ (if m.b == m.q && m.b != 512 then ["clamped"] else [])
         ++ (if m.b > m.q then ["batch>queue"] else [])
+        ++ (if live == "L" then ["live"] else [])
+        ++ (if [x.ei, x.et].any (fun e => match Spec.envInt e with | .val n => mulMs n != n * msNs | _ => false)
+            then ["ms-overflow"] else [])
+        ++ (if [x.ei, x.et].any (fun e => match Spec.envInt e with | .val n => mulMs n != n * msNs && mulMs n ≥ 1 | _ => false)
+            then ["ms-overflow-wrapped-positive"] else [])
       let nt := [x.oq, x.oi, x.ot, x.ob, x.obuf].any Option.isSome
                 || [x.eq, x.ei, x.et, x.eb].any (fun e => Spec.envInt e != .absent)
       pure { agree := ms == obsS, spec := if spec then "ok" else "FAIL", nontrivial := nt,
@@ -229,6 +241,8 @@ def stepLine (_ : Unit) (toks : List String) : Unit × Option Verdict :=
         ++ (if [e.hdS, e.hdG].any (fun v => (Spec.envVal exp v).any (fun s => (convHeaders s).isNone)) then ["hdr-invalid-pair"] else [])
         ++ (if [e.coS, e.coG].any (fun v => (Spec.envVal exp v).any (fun s => (convCompression s).isNone)) then ["comp-unknown-word"] else [])
         ++ (if [e.toS, e.toG].any (fun v => (Spec.envVal exp v).any (fun s => (atoi s).isNone)) then ["to-invalid"] else [])
+        ++ (if [e.toS, e.toG].any (fun v => (Spec.envVal exp v).any (fun s => (atoi s).any (fun n => mulMs n != n * msNs)))
+            then ["to-ms-overflow"] else [])
       let nt := !os.isEmpty || [e.epS, e.epG, e.insS, e.insG, e.hdS, e.hdG, e.coS, e.coG, e.toS, e.toG].any
         (fun v => (Spec.envVal exp v).isSome)
       pure { agree := ms == obsS, spec := spec, nontrivial := nt,
